@@ -118,6 +118,9 @@ pub mod tree;
 pub mod tree_builder;
 pub mod union_find;
 pub mod view;
+/// Verification hooks (test-only; see `verif_hooks.rs`).
+#[cfg(jj_vcs_jj_verif)]
+pub mod verif_hooks;
 pub mod working_copy;
 pub mod workspace;
 pub mod workspace_store;
